@@ -16,7 +16,15 @@ def run(ctx):
         ctx, "C01", bits=2,
         what="after a normal return a hard constraint is violated, or a value lies outside its declared type / enum (wide fields)",
         n_quick=50, n_thorough=1500, small=False, tag="c01w")
-    ev = stats["evaluations"] + stats2["evaluations"]
+    # a third stream: object trees, free-standing vsc.randomize(...) / vsc.randomize_with(...), rangelist objects
+    scs3, stats3 = solve_common.run_generic(
+        ctx, "C01", bits=2,
+        what="after a normal return (object tree / free-standing call) a hard constraint is violated, or a value lies outside its "
+             "declared type / enum",
+        n_quick=40, n_thorough=1200, tree=True, hist=True, free=True, rls=True, tag="c01f")
+    ctx.coverage["tree_and_free_stream"] = {"evaluations": stats3["evaluations"], "outcomes": stats3["outcomes"],
+                                            "free_standing_calls": sum(1 for s in scs3 for o in s["ops"] if o.get("free") is not None)}
+    ev = stats["evaluations"] + stats2["evaluations"] + stats3["evaluations"]
     ctx.coverage.update({
         "evaluations": ev,
         "distinct_nontrivial": len({repr(s["classes"][0]["blocks"]) + repr(s["classes"][0]["fields"]) for s in scs + scs2}),
@@ -34,7 +42,8 @@ def run(ctx):
         "theorems are about the Gallina models coq/Rand/{Expr,BV,Lower,Typing}.v; tie (A): for every call the multiset of hard terms "
         "handed to Boolector (recording proxy) equals the model's lowering of the enabled hard statements, syntactically",
         "Boolector is sound: a model it returns satisfies the asserted terms (premise of C01_solve_sound)",
-        "single-object programs over scalar and enum fields; lists, sub-objects, foreach, dist, soft are covered by C04-C08, C15, C05",
+        "main streams: single-object programs over scalar and enum fields; third stream: object trees, free-standing calls, "
+        "rangelist objects; lists, foreach, dist, soft, dynamic constraints are covered by C04-C08, C15, C05",
         "statements outside the typed fragment `wt` (three documented corners) and undefined ones (division by zero, part-select "
         "out of range) get no verdict from the value oracle",
     ]
